@@ -54,8 +54,9 @@ XRepCases ==
         t \in {<<1, 43>>, <<58, 161>>}, v \in {<<0, 0>>, <<65535, 255>>, <<258, 3>>}, f \in {0, 1, 2, 4, 7, 8, 23, 63}, cd \in IF Full THEN {0, 4} ELSE {0}}
 IdObjs == <<Ident(1, Name(5), 0, 0, <<>>), Ident(1, Name(4), 0, 0, <<>>), Ident(2, <<>>, 911, 0, <<>>),
             Ident(3, <<>>, 0, 1, A4), Ident(3, <<>>, 0, 3, <<73, 0, 1, 170, 170, 187, 187, 204, 204, 0>>),
-            Ident(3, <<>>, 0, 2, A6), Ident(0, <<>>, 0, 0, <<>>), RawObj(9, 4)>>
-IdIdx == {<<>>} \cup {<<i>> : i \in 1..8} \cup {<<1, 3>>, <<2, 2>>, <<8, 8>>, <<3, 4, 6>>, <<5, 1>>}
+            Ident(3, <<>>, 0, 2, A6), Ident(0, <<>>, 0, 0, <<>>), RawObj(9, 4),
+            Ident(3, <<>>, 0, 6, <<1, 2, 3, 4, 5>>), Ident(3, <<>>, 0, 65535, <<9>>), Ident(1, Name(1), 0, 0, <<>>)>>
+IdIdx == {<<>>} \cup {<<i>> : i \in 1..11} \cup {<<1, 3>>, <<2, 2>>, <<8, 8>>, <<3, 4, 6>>, <<5, 1>>, <<9, 10, 11>>}
 XReqCases ==
     {[Msg(t[1], t[2], 0, "xreq") EXCEPT !.id = v[1], !.seq = v[2], !.flag = f, !.exts = [i \in 1..Len(ix) |-> IdObjs[ix[i]]]] :
         t \in {<<1, 42>>, <<58, 160>>}, v \in {<<1, 2>>, <<65535, 255>>}, f \in {0, 1}, ix \in IdIdx}
